@@ -72,6 +72,10 @@ func (q qiEncoder) value(v reflect.Value) error {
 		return basic.WriteBool(v.Bool(), q.w)
 	case reflect.String:
 		return basic.WriteString(v.String(), q.w)
+	case reflect.Int8:
+		return basic.WriteInt8(int8(v.Int()), q.w)
+	case reflect.Uint8:
+		return basic.WriteUint8(uint8(v.Uint()), q.w)
 	case reflect.Int16:
 		return basic.WriteInt16(int16(v.Int()), q.w)
 	case reflect.Int32:
@@ -147,6 +151,10 @@ func (q qiEncoder) Encode(x interface{}) error {
 		return basic.WriteInt64(int64(v), q.w)
 	case uint:
 		return basic.WriteUint64(uint64(v), q.w)
+	case int8:
+		return basic.WriteInt8(v, q.w)
+	case uint8:
+		return basic.WriteUint8(v, q.w)
 	case uint16:
 		return basic.WriteUint16(v, q.w)
 	case uint32:
@@ -358,6 +366,18 @@ func (q qiDecoder) value(v reflect.Value) error {
 			return err
 		}
 		v.SetString(s)
+	case reflect.Int8:
+		i, err := basic.ReadInt8(q.r)
+		if err != nil {
+			return err
+		}
+		v.SetInt(int64(i))
+	case reflect.Uint8:
+		i, err := basic.ReadUint8(q.r)
+		if err != nil {
+			return err
+		}
+		v.SetUint(uint64(i))
 	case reflect.Int16:
 		i, err := basic.ReadInt16(q.r)
 		if err != nil {
@@ -431,6 +451,12 @@ func (q qiDecoder) Decode(x interface{}) (err error) {
 		var tmp uint64
 		tmp, err = basic.ReadUint64(q.r)
 		*v = uint(tmp)
+		return err
+	case *int8:
+		*v, err = basic.ReadInt8(q.r)
+		return err
+	case *uint8:
+		*v, err = basic.ReadUint8(q.r)
 		return err
 	case *uint16:
 		*v, err = basic.ReadUint16(q.r)
